@@ -12,6 +12,8 @@ generated definition and rewrite with them (no replay of the statement order of 
   quote_{path,query,fragment,userinfo}_part  =  `C06.quotePart <component> nfc full_quote text`  for EVERY `nfc`
   (the hand model's parameter `nfc` = `unicodedata.normalize('NFC', ·)`, here a parameter of the generated definition).
 -/
+set_option linter.unusedSimpArgs false
+
 namespace C06
 open C06.Gen
 
@@ -43,30 +45,39 @@ theorem src_maps_cover_bytes :
 
 /-! ## the tie theorems -/
 
-set_option hygiene false in
-local macro "quote_tie" : tactic => `(tactic|
-  (intros
-   simp only [quotePart, quoteFull, quoteMin, Comp.map, Comp.delims, rt_utf8_eq, rt_mapGet_eq, rt_join_map]
-   first
-     | rfl
-     | (split <;> rfl)
-     | (split <;> simp)))
+/-- both sides are decided by `full_quote`: case split first, so that the order of the two branches in the source
+    (`if full_quote:` / `if not full_quote:`, early return or `else`) does not matter -/
+local macro "quote_tie" b:ident : tactic => `(tactic|
+  (cases $b:ident <;>
+   simp only [quotePart, quoteFull, quoteMin, Comp.map, Comp.delims, rt_utf8_eq, rt_mapGet_eq, rt_join_map,
+     Bool.not_true, Bool.not_false, Bool.false_eq_true, if_true, if_false, ↓reduceIte] <;>
+   try rfl))
 
 theorem src_quote_path_part_eq_model (nfc : Text → Text) (text : Text) (full : Bool) :
     Src.urlutils.quote_path_part nfc text full = quotePart .path nfc full text := by
-  unfold Src.urlutils.quote_path_part; quote_tie
+  unfold Src.urlutils.quote_path_part; quote_tie full
 
 theorem src_quote_query_part_eq_model (nfc : Text → Text) (text : Text) (full : Bool) :
     Src.urlutils.quote_query_part nfc text full = quotePart .query nfc full text := by
-  unfold Src.urlutils.quote_query_part; quote_tie
+  unfold Src.urlutils.quote_query_part; quote_tie full
 
 theorem src_quote_fragment_part_eq_model (nfc : Text → Text) (text : Text) (full : Bool) :
     Src.urlutils.quote_fragment_part nfc text full = quotePart .fragment nfc full text := by
-  unfold Src.urlutils.quote_fragment_part; quote_tie
+  unfold Src.urlutils.quote_fragment_part; quote_tie full
 
 theorem src_quote_userinfo_part_eq_model (nfc : Text → Text) (text : Text) (full : Bool) :
     Src.urlutils.quote_userinfo_part nfc text full = quotePart .userinfo nfc full text := by
-  unfold Src.urlutils.quote_userinfo_part; quote_tie
+  unfold Src.urlutils.quote_userinfo_part; quote_tie full
+
+/-! non-vacuity: the generated definitions compute (`a/b c?` → `a%2Fb%20c%3F`, and only `/`, `?` when not full) -/
+example : Src.urlutils.quote_path_part id [97, 47, 98, 32, 99, 63] true
+    = [97, 37, 50, 70, 98, 37, 50, 48, 99, 37, 51, 70] := by decide +kernel
+example : Src.urlutils.quote_path_part id [97, 47, 98, 32, 99, 63] false
+    = [97, 37, 50, 70, 98, 32, 99, 37, 51, 70] := by decide +kernel
+example : Src.urlutils.quote_query_part id [97, 38, 233] true = [97, 37, 50, 54, 37, 67, 51, 37, 65, 57] := by decide +kernel
+example : Src.urlutils.quote_fragment_part id [35, 47] false = [37, 50, 51, 47] := by decide +kernel
+example : Src.urlutils.quote_userinfo_part id [58, 64, 33] true = [37, 51, 65, 37, 52, 48, 33] := by decide +kernel
+example : pathDelims ≠ [] ∧ pathMap.length = 256 := by decide +kernel
 
 /-! ## `unquote_to_bytes`: the split-on-`%` loop is the model's left-to-right scan
 
@@ -191,6 +202,20 @@ theorem pieceHd_of_tl_nil : ∀ (l : Bytes), pieceTl l = [] → pieceHd l = l :=
     · subst hx; rw [pieceTl_pct] at h; cases h
     · rw [pieceTl_ne hx] at h; rw [pieceHd_ne hx, ih h]
 
+theorem pieceTl_nil_iff : ∀ (l : Bytes), pieceTl l = [] ↔ l.contains 37 = false := by
+  intro l
+  induction l with
+  | nil => simp [pieceTl_nil]
+  | cons x r ih =>
+    by_cases hx : x = 37
+    · subst hx; simp [pieceTl_pct]
+    · rw [pieceTl_ne hx, ih]
+      have : (x == 37) = false := by simp [hx]
+      simp [eq_comm, hx]
+
+/-- the tie.  The two ways the source may detect "no `%` at all" (`len(bits) == 1` after the split, or `b'%' not in
+    string` before it) are both decided by `pieceTl l = []`: whichever test the generated definition contains is
+    rewritten by the corresponding fact. -/
 theorem src_unquote_to_bytes_eq_model (s : Text) :
     Src.urlutils.unquote_to_bytes s = unqBytes (utf8 s) := by
   rw [unqBytes_eq_spec, ← piecesDec_eq_spec]
@@ -200,12 +225,17 @@ theorem src_unquote_to_bytes_eq_model (s : Text) :
   | nil => simp [utf8, piecesDec_nil]
   | cons c cs =>
     generalize utf8 (c :: cs) = l
-    rw [splitOn_eq l]
+    simp only [splitOn_eq l]
     by_cases ht : pieceTl l = []
-    · simp [ht, piecesDec, pieceHd_of_tl_nil l ht]
-    · have hlen : ((pieceHd l :: pieceTl l).length == 1) = false := by
+    · have hc : l.contains 37 = false := (pieceTl_nil_iff l).1 ht
+      simp [ht, hc, piecesDec, pieceHd_of_tl_nil l ht]
+    · have hc : l.contains 37 = true := by
+        cases h : l.contains 37
+        · exact absurd ((pieceTl_nil_iff l).2 h) ht
+        · rfl
+      have hlen : ((pieceHd l :: pieceTl l).length == 1) = false := by
         cases h : pieceTl l <;> simp_all
-      simp only [hlen, List.isEmpty_cons, Bool.not_false, Bool.not_true, Bool.false_eq_true, if_false,
+      simp only [hlen, hc, List.isEmpty_cons, Bool.not_false, Bool.not_true, Bool.false_eq_true, if_false,
         List.headD_cons, List.drop_succ_cons, List.drop_zero]
       rw [src_foldl_chunks unqChunks]
       · simp [piecesDec]
@@ -213,18 +243,9 @@ theorem src_unquote_to_bytes_eq_model (s : Text) :
         simp only [unqChunks]
         split <;> simp [*]
 
-/-! non-vacuity: the generated definitions compute (`a/b c?` → `a%2Fb%20c%3F`, and only `/`, `?` when not full) -/
-example : Src.urlutils.quote_path_part id [97, 47, 98, 32, 99, 63] true
-    = [97, 37, 50, 70, 98, 37, 50, 48, 99, 37, 51, 70] := by decide
-example : Src.urlutils.quote_path_part id [97, 47, 98, 32, 99, 63] false
-    = [97, 37, 50, 70, 98, 32, 99, 37, 51, 70] := by decide
-example : Src.urlutils.quote_query_part id [97, 38, 233] true = [97, 37, 50, 54, 37, 67, 51, 37, 65, 57] := by decide
-example : Src.urlutils.quote_fragment_part id [35, 47] false = [37, 50, 51, 47] := by decide
-example : Src.urlutils.quote_userinfo_part id [58, 64, 33] true = [37, 51, 65, 37, 52, 48, 33] := by decide
 -- `a%41%4` → `aA%4`; `%e9%` → `\xe9%`; `é` → its UTF-8 bytes
 example : Src.urlutils.unquote_to_bytes [97, 37, 52, 49, 37, 52] = [97, 65, 37, 52] := by decide +kernel
 example : Src.urlutils.unquote_to_bytes [37, 101, 57, 37] = [233, 37] := by decide +kernel
 example : Src.urlutils.unquote_to_bytes [233] = [195, 169] := by decide +kernel
-example : pathDelims ≠ [] ∧ pathMap.length = 256 := by decide +kernel
 
 end C06
